@@ -16,22 +16,22 @@ CLAIMS = {
     "C02": dict(
         cat="exploration", ref="DESIGN.md §4 C02",
         technique="differential runtime monitor: real decoders vs independent reference parser on exhaustive short strings, mutations and truncations; aliasing canary on pooled messages; child-process crash/hang watchdog",
-        text="Arbitrary byte strings (exhaustive over a reduced alphabet up to a small length, every truncation/bit flip/boundary substitution of valid encodings, PRNG tails for every first byte) are fed to both decoders, the stream header pre-parser and the pooled-message API (fresh and recycled messages) and to a live udp Conn.Process; monitors compare accept/reject and all fields with a reference parser, re-encode and re-decode, overwrite the caller buffer and re-read, and a watchdog bounds every batch.",
+        text="Arbitrary byte strings (exhaustive over a reduced alphabet up to a small length, every truncation/bit flip/boundary substitution of valid encodings, PRNG tails for every first byte) are fed to both decoders, the stream header pre-parser and the pooled-message API (fresh and recycled messages) and to a live udp Conn.Process; monitors compare accept/reject and all fields with a reference parser, re-encode and re-decode, overwrite the caller buffer and re-read, and a watchdog bounds every batch. Also: frame lengths at the 32-bit limit for every token length, option-length grid over all registries, live connections whose application keeps messages while the receive buffer is overwritten.",
         note="Trusted: reference parser in harness/ref with the three documented leniencies; exhaustive part is over a reduced alphabet; totality = returned within the watchdog."),
     "C03": dict(
         cat="exploration", ref="DESIGN.md §4 C03",
         technique="runtime history monitor: scripted peer records produced responses per (token, request); every returned call checked against it under -race stress",
-        text="Real connections (udp in-memory session, tcp scripted net.Conn, dtls/tls loopback) are driven by 1..N concurrent callers while a scripted peer answers piggybacked/separate/delayed/duplicated/permuted; the monitor checks every successful return against the peer's production table (own token, own content, no double delivery) and the equal-token rule.",
+        text="Real connections (udp in-memory session, tcp scripted net.Conn, dtls/tls loopback) are driven by 1..N concurrent callers while a scripted peer answers piggybacked/separate/delayed/duplicated/permuted; the monitor checks every successful return against the peer's production table (own token, own content, no double delivery) and the equal-token rule. Also: responses of 2-3.5 KiB in one message received through a single re-used receive buffer; callers that hold and re-check responses.",
         note="Real-thread schedules are sampled, not enumerated. Trusted: the scripted peer and its reference codec."),
     "C04": dict(
         cat="fault_enumeration", ref="DESIGN.md §4 C04",
         technique="runtime monitor over a two-party fault-injecting relay: per-block fault scripts (enumerated for short transfers), body identity/multiplicity oracle, -race",
-        text="Two real connections exchange block-wise bodies (PRNG bytes with transfer ids) through a relay that delivers/duplicates/drops/reorders/replays blocks by script; all single and double fault scripts are enumerated for short transfers, PRNG scripts beyond; the monitor checks byte-exact bodies, exactly-once delivery under same-MID faults, option preservation and termination by the context deadline.",
+        text="Two real connections exchange block-wise bodies (PRNG bytes with transfer ids) through a relay that delivers/duplicates/drops/reorders/replays blocks by script; all single and double fault scripts are enumerated for short transfers, PRNG scripts beyond; the monitor checks byte-exact bodies, exactly-once delivery under same-MID faults, option preservation and termination by the context deadline. Also: scripted foreign peers with their own block sizes, downloads slower than the block-wise timeout, ETag changes mid-transfer, and interleaved transfers whose tokens differ only in length or in one bit.",
         note="Multiplicity is only required for faults a datagram network produces by itself (same-MID); fresh-MID replays are new requests. Liveness restated as return by deadline+grace."),
     "C05": dict(
         cat="exploration", ref="DESIGN.md §4 C05",
         technique="runtime monitor on handler-invocation log and emitted datagrams for injected duplicate MIDs; virtual-time sweeps for the lifetime boundary; -race",
-        text="CON and NON requests are injected repeatedly (sequentially while the first handler is still running, and concurrently) into a real udp connection; the monitor requires one handler run per (MID, lifetime), one equal reply per copy with the duplicate's MID, and fresh handling after a sweep past t0+247s but not before.",
+        text="CON and NON requests are injected repeatedly (sequentially while the first handler is still running, and concurrently) into a real udp connection; the monitor requires one handler run per (MID, lifetime), one equal reply per copy with the duplicate's MID, and fresh handling after a sweep past t0+247s but not before. Also: handlers that take the request over and release it before returning; the same duplicates against a real udp server (wildcard and loopback bind) with Server.NewConn / other peers between the copies.",
         note="Sweep times are bracketed around the wall-clock stamp the library takes (±1 s margin ≫ jitter)."),
     "C06": dict(
         cat="fault_enumeration", ref="DESIGN.md §4 C06",
@@ -51,27 +51,27 @@ CLAIMS = {
     "C09": dict(
         cat="fault_enumeration", ref="DESIGN.md §4 C09",
         technique="runtime monitor with two-stage watchdog: operations x transports x interruption points x actions enumerated; on-close counters",
-        text="Every blocking operation is interrupted (ctx cancel/deadline, local close, peer close, server stop) at enumerated points against silent/garbage/half-open/ack-only peers; the monitor requires return within the bounded-progress watchdog, exactly-once on-close callbacks, Done() closed and idempotent concurrent Close/Stop.",
+        text="Every blocking operation is interrupted (ctx cancel/deadline, local close, peer close, server stop) at enumerated points against silent/garbage/half-open/ack-only peers; the monitor requires return within the bounded-progress watchdog, exactly-once on-close callbacks, Done() closed and idempotent concurrent Close/Stop. Also: a dtls peer that is silent from the first datagram on (handshake never completes), a peer closing this very connection, on-close callbacks that wait for the operation, a parent context ending before Close, Close with a full receive queue.",
         note="Liveness restated as bounded progress; a watchdog firing without the goroutine parked in the library is inconclusive."),
     "C10": dict(
         cat="exploration", ref="DESIGN.md §4 C10",
         technique="runtime monitor over real loopback servers with adversarial peers: per-client response logs, peer-table identity log, liveness probe; -race",
-        text="UDP/DTLS/TCP/TLS servers serve well-behaved clients (payload = client id + sequence) while adversaries send garbage, truncated/oversize messages, unsolicited ACK/RST, stalls and abrupt closes; monitors check isolation, per-peer connection identity and order, server survival and a final liveness probe; discovery receivers are checked by token and peer.",
+        text="UDP/DTLS/TCP/TLS servers serve well-behaved clients (payload = client id + sequence) while adversaries send garbage, truncated/oversize messages, unsolicited ACK/RST, stalls and abrupt closes; monitors check isolation, per-peer connection identity and order, server survival and a final liveness probe; discovery receivers are checked by token and peer. Also: stall probes, peers announcing an oversized frame and stalling, keep-alive isolation between peers, server-initiated connections, duplicate discovery tokens.",
         note="Multicast is not routable in the sandbox (unicast discovery only)."),
     "C11": dict(
         cat="exploration", ref="DESIGN.md §4 C11",
         technique="runtime exactly-once monitor over injected ids vs processing log; nested-call completion watchdog; ordering in pure-server workloads",
-        text="Uniquely tagged messages are injected into real connections with queue sizes 0/1/16 while handlers return, or block in nested requests to depth 4; the monitor checks exactly-once processing at quiescence, nested completion, and arrival order when nothing can reorder.",
+        text="Uniquely tagged messages are injected into real connections with queue sizes 0/1/16 while handlers return, or block in nested requests to depth 4; the monitor checks exactly-once processing at quiescence, nested completion, and arrival order when nothing can reorder. Also: bursts in which the request monitor refuses some messages (delivered with one read on streams).",
         note="Ordering is asserted only without concurrent client calls (a replaced loop may keep dequeuing)."),
     "C12": dict(
         cat="exploration", ref="DESIGN.md §4 C12",
         technique="lifecycle tracker hook in message/pool (state machine, poison-on-release, verify-on-acquire, app-held registry) + race detector attribution, over error-path-weighted workloads",
-        text="A verif-tagged tracker records acquire/release per message object, poisons released buffers and checks them at re-acquire; harness registers messages held by application code; workloads weight error paths (write failures, cancels, duplicate tokens, sweeps concurrent with ACKs) on small pools; race reports touching pool/message state count as violations.",
+        text="A verif-tagged tracker records acquire/release per message object, poisons released buffers and checks them at re-acquire; harness registers messages held by application code; workloads weight error paths (write failures, cancels, duplicate tokens, sweeps concurrent with ACKs) on small pools; race reports touching pool/message state count as violations. Also: a ping whose write is slow while the connection gives up on it (the ping must still go out as the ping), and messages the application took over and keeps across the close of their connection.",
         note="Read-after-release without a concurrent write or re-acquire is invisible."),
     "C13": dict(
         cat="exploration", ref="DESIGN.md §4 C13",
         technique="quiescent-point invariant hook: verif-tagged size accessors on every per-exchange table after PRNG exchange histories and virtual-time sweeps",
-        text="PRNG histories of exchanges with all outcomes run on real connections; after all calls returned and sweeps at now+1h / +248 s ran, every table size accessor must be 0 (live observations excepted) and repeated histories must not grow any table.",
+        text="PRNG histories of exchanges with all outcomes run on real connections; after all calls returned and sweeps at now+1h / +248 s ran, every table size accessor must be 0 (live observations excepted) and repeated histories must not grow any table. Also: connections built without a block-wise layer, small NSTART, failing discoveries, superseded keep-alive pings; a leftover is what survives repeated housekeeping.",
         note="Checked only at quiescent points."),
     "C14": dict(
         cat="exploration", ref="DESIGN.md §4 C14",
@@ -86,7 +86,7 @@ CLAIMS = {
     "C16": dict(
         cat="exploration", ref="DESIGN.md §4 C16",
         technique="reference limiter model stepped on the same event sequence: exhaustive {arrive,cancel,finish} orders driven to quiescence via a queue accessor hook; gauge monitor under -race stress",
-        text="Every order of arrive/cancel/finish events for up to 4-5 requests over 1-2 paths and limits 1-2 is driven against the real limiter, each event to quiescence; admissions are compared with a reference model; in-flight gauges are checked inside the wrapped do; the limiter must be idle at the end.",
+        text="Every order of arrive/cancel/finish events for up to 4-5 requests over 1-2 paths and limits 1-2 is driven against the real limiter, each event to quiescence; admissions are compared with a reference model; in-flight gauges are checked inside the wrapped do; the limiter must be idle at the end. Also: limits observed on the wire for requests a dtls/udp SERVER issues over connections it accepted, and Observation.Cancel through the limiter.",
         note="Grant-vs-cancel races accept both outcomes."),
     "C17": dict(
         cat="exploration", ref="DESIGN.md §4 C17",
@@ -96,7 +96,7 @@ CLAIMS = {
     "C18": dict(
         cat="exploration", ref="DESIGN.md §4 C18",
         technique="reference monitor model over exhaustive event strings {recv, pong, stale pong, tick-, tick+} with virtual time, on the monitor objects and on real connections",
-        text="All event strings up to a bound over receive/pong/stale-pong/tick events are applied to the real inactivity/keep-alive monitors (directly and through real udp/tcp connections with CheckExpirations(now)); closes and pings are compared with a reference model.",
+        text="All event strings up to a bound over receive/pong/stale-pong/tick events are applied to the real inactivity/keep-alive monitors (directly and through real udp/tcp connections with CheckExpirations(now)); closes and pings are compared with a reference model. Also: completion of injected messages is observed (not timed); groups of connections from one configuration; a real dtls server whose handshake takes longer than the period.",
         note="'More than N pings' read tolerantly (close at failing tick N+1 or N+2)."),
     "C19": dict(
         cat="exploration", ref="DESIGN.md §4 C19",
@@ -106,7 +106,7 @@ CLAIMS = {
     "C20": dict(
         cat="exploration", ref="DESIGN.md §4 C20",
         technique="exhaustive differential monitor of the RFC 7967 class rule over 32 values x 256 codes, plus wire observation on real udp/tcp connections",
-        text="Every (No-Response value, response code) pair is checked on IsNoResponseCode and ResponseWriter.SetResponse against the class rule, and end-to-end on real udp (CON/NON) and tcp connections where the emitted datagrams/frames are inspected (suppressed => nothing but a bare ACK; not suppressed => response present).",
+        text="Every (No-Response value, response code) pair is checked on IsNoResponseCode and ResponseWriter.SetResponse against the class rule, and end-to-end on real udp (CON/NON) and tcp connections where the emitted datagrams/frames are inspected (suppressed => nothing but a bare ACK; not suppressed => response present). Also: retransmitted confirmable requests, handlers that release the request before answering, six option environments, all request methods.",
         note="Trusted: the 1-line class rule."),
 }
 
